@@ -26,11 +26,16 @@ LEVEL = "exploration"
 RULE = ("multi-line programs (one sub-form per line, random blank lines and hostile comment lines) with exactly "
         "one raiser (division by zero, undefined name/function, raise, failing get, failing attribute (both "
         "spellings), failing unpacking assignment, failing import / from-import, call of a non-callable, a harness "
-        "function that raises) placed in EACH slot of each host template (do if cond when and or setv setx let fn "
+        "function that raises, and ~65 forms whose failing operation the compiler builds by REWRITING the source "
+        "form: multi-value augmented assignments, reciprocal/unary/variadic/right-associative operators, comparison "
+        "chains, multi-index get, dotted/method-call sugar, (. x [i]), f-string '=' debug fields and specs, cut, "
+        "assert, with/for protocol failures, unpacking, core-macro expansions) placed in EACH slot of each host template (do if cond when and or setv setx let fn "
         "calls keyword/unpacked arguments operators collections while for with try assert raise yield quasiquote "
         "defn bodies/defaults/decorators/annotations, class bodies/bases/methods, lfor/sfor/dfor/gfor in both "
         "strategies, match, f-string fields, user macros: raiser in the argument and in the template); depth-1 "
-        "host x raiser enumerated, chains of 2-3 hosts sampled; at module level and inside a function. "
+        "host x raiser pairs enumerated in shuffled order (as far as the budget reaches), chains of 1-3 hosts "
+        "sampled; at module level and inside a function; line endings LF, CRLF and mixed (with lone CRs inside "
+        "comments and a string literal; only LF ends a line). "
         "Non-trivial = raiser under a function/class/comprehension/macro host or the compiled AST hoists a "
         "statement (a _hy_ temporary); distinct by program text.")
 FLOOR = {"quick": 1000, "thorough": 5000}
@@ -55,7 +60,7 @@ MANIFEST = {
             "report a line inside the raiser's line span (reader positions, cross-checked with the generator's "
             "layout; macro call's span for template raisers). Exploration: held on the programs run.",
     "note": "Trusted: CPython 3.12.1 line attribution of instructions; the generator's layout bookkeeping "
-            "(cross-checked against the reader on every case). Bounds: chains of <= 3 hosts, no async, no "
+            "(cross-checked against the reader on every case; a line ends at LF only, as for hy and CPython). Bounds: chains of <= 3 hosts, no async, no "
             "reader macros, no hy.eval of run-time-built models (docs: positions fall back to 1 there).",
     "technique": "runtime monitoring: traceback walk of the one raising form vs. its source line span",
 }
@@ -127,6 +132,12 @@ def parse(text):
             j += 1
         if j == pos:
             raise ValueError(f"bad template at {pos}: {text}")
+        if j < n and text[j] == '"' and text[pos:j].isalpha():
+            # prefixed string literal (f"..." r"..." b"..."): one atom, fields included
+            j += 1
+            while text[j] != '"':
+                j += 2 if text[j] == "\\" else 1
+            j += 1
         s = text[pos:j]
         pos = j
         return s
@@ -228,12 +239,17 @@ _COMMENTS = ["; filler", ";; (/ 1 0)", "; \" unbalanced ( [ {", ";;; ) ] }", "; 
              "; (raise (EX 1))", "; `(~x ~@y)", "; f\"{x}\"", "; #_ (foo", ";\t tab", "; λ ✈ unicode"]
 
 
+_CR_COMMENTS = ["; lone\rCR ( in a comment", ";\r", "; \r\r\" ) two"]
+
+
 class Layout:
     """Multi-line renderer: every element of a sequence on the path to a mark
     gets its own line; other sequences are kept on one line half of the time."""
 
-    def __init__(self, rng, noise=0.25, spread=0.5):
+    def __init__(self, rng, noise=0.25, spread=0.5, cr_comments=False):
         self.rng, self.noise, self.spread = rng, noise, spread
+        # a lone CR is not a line break (neither for hy's reader nor for CPython): it stays in the comment
+        self.comments = _COMMENTS + (_CR_COMMENTS * 3 if cr_comments else [])
         self.lines = [""]
         self.marks = []
         self.in_f = 0
@@ -253,7 +269,7 @@ class Layout:
             if self.in_f or rng.random() < 0.5:
                 self.lines.append("")
             else:
-                self.lines.append(" " * rng.choice([0, indent, indent + 3]) + rng.choice(_COMMENTS))
+                self.lines.append(" " * rng.choice([0, indent, indent + 3]) + rng.choice(self.comments))
         self.lines.append(" " * indent)
 
     def render(self, t, indent, force=False):
@@ -328,8 +344,82 @@ RAISERS = [
     ("notcallable", "($N 1)", "TypeError", "not callable"),
     ("harness-call", "(BOOM $N)", "EX", "boom$N"),
     ("int-parse", "(int \"x$N\")", "ValueError", "x$N"),
+    # forms whose failing operation is built by the compiler from new models (mkexpr / Expression /
+    # synthesised constants), not compiled from a source sub-form as it stands
+    ("aug-div-multi", "(/= (get LST 0) $N 0)", "ZeroDivisionError", None),
+    ("aug-add-multi", "(+= (get LST 0) $N \"a\")", "TypeError", "unsupported operand"),
+    ("aug-floordiv-multi", "(//= (get LST 0) $N 1 0)", "ZeroDivisionError", None),
+    ("aug-sub-multi", "(-= (get LST 0) $N \"a\")", "TypeError", "unsupported operand"),
+    ("aug-mul-multi", "(*= (get LST 0) $N None)", "TypeError", "unsupported operand"),
+    ("aug-pow-multi", "(**= (get LST 0) 0 (- $N))", "ZeroDivisionError", None),
+    ("aug-or-multi", "(|= (get LST 0) $N \"a\")", "TypeError", "unsupported operand"),
+    ("aug-shift-multi", "(<<= (get LST 0) $N \"a\")", "TypeError", "unsupported operand"),
+    ("aug-single", "(/= (get LST 0) (- $N $N))", "ZeroDivisionError", None),
+    ("aug-mod", "(%= (get LST 0) (- $N $N))", "ZeroDivisionError", None),
+    ("aug-attr-target", "(+= V.attr-$N 1 2)", "AttributeError", "attr_$N"),
+    ("reciprocal", "(/ (- $N $N))", "ZeroDivisionError", None),
+    ("unary-neg", "(- \"a$N\")", "TypeError", "bad operand"),
+    ("sub-multi", "(- $N 1 \"a\")", "TypeError", "unsupported operand"),
+    ("add-multi", "(+ $N 1 2 \"a\")", "TypeError", "unsupported operand"),
+    ("pow-right-assoc", "(** 0 (- $N) 1)", "ZeroDivisionError", None),
+    ("floordiv", "(// $N 1 0)", "ZeroDivisionError", None),
+    ("mod", "(% $N 0)", "ZeroDivisionError", None),
+    ("matmul", "(@ $N 1)", "TypeError", "unsupported operand"),
+    ("compare-chain", "(< 1 $N \"a\")", "TypeError", "not supported between"),
+    ("compare-chain-first", "(<= \"a\" $N 3)", "TypeError", "not supported between"),
+    ("chainc", "(chainc 1 < $N <= \"a\")", "TypeError", "not supported between"),
+    ("not-in", "(not-in 1 $N)", "TypeError", "not iterable"),
+    ("in", "(in $N 5)", "TypeError", "not iterable"),
+    ("get-multi", "(get [[1]] 0 $N)", "IndexError", None),
+    ("get-multi-dict", "(get {1 {2 3}} 1 $N)", "KeyError", "$N"),
+    ("dot-index", "(. LST [$N])", "IndexError", None),
+    ("dot-method", "(. V (meth-$N 1))", "AttributeError", "meth_$N"),
+    ("dot-chain", "(. V real imag attr-$N)", "AttributeError", "attr_$N"),
+    ("dotted-chain", "V.real.attr-$N", "AttributeError", "attr_$N"),
+    ("method-sugar-noargs", "(.meth-$N V)", "AttributeError", "meth_$N"),
+    ("method-sugar-chain", "(.real.meth-$N V)", "AttributeError", "meth_$N"),
+    ("dotted-call", "(V.meth-$N 1)", "AttributeError", "meth_$N"),
+    ("cut-int", "(cut $N 1)", "TypeError", "not subscriptable"),
+    ("cut-step", "(cut [1 2] 0 1 (- $N $N))", "ValueError", "slice step cannot be zero"),
+    ("fstr-debug", "f\"{(/ $N 0) =}\"", "ZeroDivisionError", None),
+    ("fstr-debug-spec", "f\"a{(get [1] $N) = !r:>5}b\"", "IndexError", None),
+    ("fstr-bad-spec", "f\"{$N :zz}\"", "ValueError", "format code"),
+    ("fstr-nested-spec-bad", "f\"{$N :{BADSPEC}}\"", "ValueError", "format code"),
+    ("assert", "(assert (= 1 $N))", "AssertionError", None),
+    ("assert-msg", "(assert False \"m$N\")", "AssertionError", "m$N"),
+    ("raise-nonexception", "(raise $N)", "TypeError", "exceptions must derive"),
+    ("for-not-iterable", "(for [x$N $N] 1)", "TypeError", "not iterable"),
+    ("lfor-not-iterable", "(lfor x$N $N x$N)", "TypeError", "not iterable"),
+    ("with-not-cm", "(with [$N] 1)", "TypeError", "context manager"),
+    ("with-not-cm-named", "(with [w$N $N] 1)", "TypeError", "context manager"),
+    ("unpack-iter-arg", "(F #* $N)", "TypeError", "after *"),
+    ("unpack-map-arg", "(F #** $N)", "TypeError", "after **"),
+    ("list-unpack", "[1 #* $N]", "TypeError", "must be an iterable"),
+    ("setv-subscript", "(setv (get LST $N) 1)", "IndexError", None),
+    ("setv-attr", "(setv V.attr-$N 1)", "AttributeError", "attr_$N"),
+    ("del-subscript", "(del (get LST $N))", "IndexError", None),
+    ("del-name", "(del undefined-$N)", "NameError", "undefined_$N"),
+    ("setv-unpack-star", "(setv [ua-$N #* ub-$N] $N)", "TypeError", "cannot unpack"),
+    ("let-unpack-nested", "(let [[ua-$N [ub-$N uc-$N]] [1 [$N]]] ua-$N)", "ValueError", "not enough values"),
+    ("match-class-nonclass", "(match 1 (V :x$N 1) 2)", "TypeError", "must be a class"),
+    ("pyops-call", "(hy.pyops./ $N 0)", "ZeroDivisionError", None),
+    ("cond-test", "(cond (/ $N 0) 1)", "ZeroDivisionError", None),
+    ("when-test", "(when (get [1] $N) 1)", "IndexError", None),
+    ("and-operand", "(and 1 (get [1] $N))", "IndexError", None),
+    ("if-test-only", "(if (get [1] $N) 1 2)", "IndexError", None),
+    ("quasi-unquote", "`(a ~(get [1] $N))", "IndexError", None),
+    ("kwarg-unknown", "((fn [] 1) :kw-$N 1)", "TypeError", "kw_$N"),
+    ("import-as", "(import nomod-$N :as nm-$N)", "ModuleNotFoundError", "nomod_$N"),
+    ("import-from-as", "(import math [nosuch-$N :as ns-$N])", "ImportError", "nosuch_$N"),
+    ("import-dotted", "(import os.nosub-$N)", "ModuleNotFoundError", "nosub_$N"),
 ]
-STATEMENT_RAISERS = {"raise", "raise-from", "unpack", "unpack-let", "import", "import-from"}
+STATEMENT_RAISERS = {"raise", "raise-from", "unpack", "unpack-let", "import", "import-from",
+                     "aug-div-multi", "aug-add-multi", "aug-floordiv-multi", "aug-sub-multi", "aug-mul-multi",
+                     "aug-pow-multi", "aug-or-multi", "aug-shift-multi", "aug-single", "aug-mod", "aug-attr-target",
+                     "assert", "assert-msg", "raise-nonexception", "for-not-iterable", "with-not-cm",
+                     "with-not-cm-named", "setv-subscript", "setv-attr", "del-subscript", "del-name",
+                     "setv-unpack-star", "let-unpack-nested", "match-class-nonclass", "import-as",
+                     "import-from-as", "import-dotted", "cond-test", "when-test", "if-test-only"}
 
 # ---------------------------------------------------------------------------
 # hosts: (name, class tag, template) — exactly one HOLE; $1 $2 ... are replaced
@@ -587,8 +677,14 @@ def instantiate(h, nums):
     return tree, pre
 
 
-def build_program(rng, chain, raiser, mode, noise):
-    """chain: host names outermost first.  Returns the rendered case dict."""
+EOLS = ["lf", "crlf", "mixed"]
+
+
+def build_program(rng, chain, raiser, mode, noise, eol="lf"):
+    """chain: host names outermost first.  eol: how lines end - "lf", "crlf" or "mixed" (each line
+    LF or CRLF at random; comments and a filler string then also hold lone CRs).  Only "\n" ends
+    a line (hy's and CPython's rule), so the layout's line numbers do not depend on the variant.
+    Returns the rendered case dict."""
     base = rng.randrange(1000, 9000)
     nums = {"ctr": itertools.count(base * 10), "local": {}}
     n = next(nums["ctr"])
@@ -623,6 +719,8 @@ def build_program(rng, chain, raiser, mode, noise):
         tops.append(p)
     filler_n = next(nums["ctr"])
     tops.append(parse1(f"(setv filler{filler_n} [1 2 3])"))
+    if eol == "mixed":
+        tops.append(f'(setv sfiller{filler_n} "lone\rCR and CR\r\rCR")')
     if mode == "fn":
         tops.append(["seq", "(", ["defn", f"main{filler_n}", ["seq", "[", []], main]])
         tops.append(parse1(f"(main{filler_n})"))
@@ -630,19 +728,24 @@ def build_program(rng, chain, raiser, mode, noise):
         tops.append(main)
     tops.append(parse1(f"(setv never-reached{filler_n} 1)"))
 
-    lay = Layout(rng, noise=noise)
+    lay = Layout(rng, noise=noise, cr_comments=(eol == "mixed"))
     if rng.random() < 0.5:
-        lay.emit(rng.choice(_COMMENTS))
+        lay.emit(rng.choice(lay.comments))
         lay.newline(0)
     for i, t in enumerate(tops):
         if i:
             lay.newline(0)
         lay.render(t, 0)
-    text = "\n".join(lay.lines) + "\n"
+    if eol == "lf":
+        text = "\n".join(lay.lines) + "\n"
+    elif eol == "crlf":
+        text = "\r\n".join(lay.lines) + "\r\n"
+    else:
+        text = "".join(ln + rng.choice(["\n", "\r\n"]) for ln in lay.lines)
     if len(lay.marks) != 1:
         raise AssertionError(f"expected one marked form, got {lay.marks} for chain {chain}")
     return {"text": text, "span": lay.marks[0][:2], "span_cols": lay.marks[0][2:], "span_flat": span_flat, "exc": rexc, "token": token,
-            "raiser": rk, "chain": list(chain), "mode": mode, "template": in_template, "tags": tags}
+            "raiser": rk, "chain": list(chain), "mode": mode, "template": in_template, "tags": tags, "eol": eol}
 
 
 def _unmark(t):
@@ -680,19 +783,25 @@ def _chain_ok(chain, raiser_kind=None):
 
 def cases(seed, tier, shard, nshards):
     names = [h["name"] for h in H]
-    idx = 0
-    # part 1: every host x every raiser, depth 1, both modes alternating
-    for hi, name in enumerate(names):
-        for ri, raiser in enumerate(RAISERS):
-            idx += 1
-            if idx % nshards != shard or not _chain_ok([name], raiser[0]):
-                continue
-            rng = rng_for(seed, ID, "enum", idx)
-            mode = "module" if (hi + ri) % 2 else "fn"
-            yield build_program(rng, [name], raiser, mode, noise=0.25)
-    # part 2: sampled chains
+    # part 1: every host x every raiser at depth 1, in an order shuffled per seed (the quick budget
+    # covers part of the product; the thorough one all of it), interleaved with
+    # part 2: sampled chains of 1-3 hosts
+    pairs = [(hi, ri) for hi in range(len(names)) for ri in range(len(RAISERS))]
+    rng_for(seed, ID, "enum-order").shuffle(pairs)
+    pairs = [p for k, p in enumerate(pairs) if k % nshards == shard]
+    pi = 0
     i = 0
     while True:
+        if pi < len(pairs) and i % 2 == 0:
+            hi, ri = pairs[pi]
+            pi += 1
+            i += 1
+            if not _chain_ok([names[hi]], RAISERS[ri][0]):
+                continue
+            rng = rng_for(seed, ID, "enum", hi * 1000 + ri)
+            mode = "module" if (hi + ri) % 2 else "fn"
+            yield build_program(rng, [names[hi]], RAISERS[ri], mode, noise=0.25, eol=EOLS[(hi + 2 * ri) % 3])
+            continue
         rng = rng_for(seed, ID, shard, i)
         i += 1
         depth = rng.choice([1, 2, 2, 3, 3])
@@ -701,7 +810,8 @@ def cases(seed, tier, shard, nshards):
         if not _chain_ok(chain, raiser[0]):
             continue
         mode = rng.choice(["module", "fn"])
-        yield build_program(rng, chain, raiser, mode, noise=rng.choice([0.0, 0.2, 0.4]))
+        yield build_program(rng, chain, raiser, mode, noise=rng.choice([0.0, 0.2, 0.4]),
+                            eol=rng.choice(["lf", "lf", "crlf", "mixed"]))
 
 
 # ---------------------------------------------------------------------------
@@ -742,7 +852,7 @@ def _env():
         return ticks[0] <= 2
 
     return {"TICK": TICK, "F": lambda *a, **k: 1, "IDENT": lambda x: x, "DECO": lambda x: (lambda f: f), "CM": CM,
-            "EX": EX, "EOther": EOther, "BOOM": BOOM, "V": 1, "LST": [0], "PT": PT}
+            "EX": EX, "EOther": EOther, "BOOM": BOOM, "V": 1, "LST": [0], "PT": PT, "BADSPEC": "zz"}
 
 
 _serial = itertools.count()
@@ -819,7 +929,8 @@ def run_case(case):
     from hy.reader import read_many
     text = case["text"]
     fn = "<hvc17-%d>" % next(_serial)
-    classes = ["raiser:" + case["raiser"], "mode:" + case["mode"], "depth:%d" % len(case["chain"])]
+    classes = ["raiser:" + case["raiser"], "mode:" + case["mode"], "depth:%d" % len(case["chain"]),
+               "eol:" + case.get("eol", "lf")]
     classes += ["host:" + h for h in case["chain"]] + ["tag:" + t for t in sorted(set(case["tags"]))]
     if case["template"]:
         classes.append("span:macro-call")
@@ -870,6 +981,8 @@ def run_case(case):
         res["why"] = f"{k}: {exc!r}"
         return res
     tname = type(exc).__name__
+    if tname == "UnboundLocalError" and case["exc"] == "NameError":
+        tname = "NameError"         # the same failure inside a function (a subclass of NameError)
     if tname != case["exc"] or (case["token"] and case["token"] not in str(exc)):
         _bump("skip:other-exception")
         _bump("skip:other-exception:" + "+".join(case["chain"]) + "/" + case["raiser"])
@@ -916,7 +1029,8 @@ def gate(tot, classes, extra, tier):
     if seen and skipped > 0.02 * (seen + skipped):
         return f"premise-failed-on-{skipped}-of-{seen + skipped}-programs"
     for need in ("tag:comp-native", "tag:comp-fn", "tag:macro-arg", "tag:macro-tmpl", "tag:fstr", "tag:match",
-                 "tag:kwarg", "tag:class", "tag:fn", "tag:core", "raiser-multiline"):
+                 "tag:kwarg", "tag:class", "tag:fn", "tag:core", "raiser-multiline", "eol:lf", "eol:crlf",
+                 "eol:mixed"):
         if not classes.get(need):
             return f"no-{need}-case-observed"
     return None
